@@ -93,7 +93,7 @@ def must_fail(res, dfsbin, paths, pre, args, what, files):
     if screen(res, r_, PROP, what, files):
         return
     res.events += 1
-    if r_.rc == 0 or not r_.err.strip() or (args[0] in ('dump-sector', 'type', 'cat', 'show-titles', 'info') and r_.out.strip()):
+    if r_.rc == 0 or not r_.err.strip() or (args[0] in ('dump-sector', 'type', 'cat', 'show-titles', 'info', 'free') and r_.out.strip()):
         res.violation('beyond-end-accepted:' + what,
                       '%s succeeded, was silent, or produced data: %r' % (what, args),
                       {'run': r_.brief()}, files, r_.argv)
@@ -320,10 +320,12 @@ def case(spec):
                     must_fail(res, dfsbin, path, pre, ['dump-sector', str(k), '79', '10'], 'dump-sector-out-of-range', files)
                 else:
                     # unformatted / invalid / illegal status: no command may obtain data
-                    cmd = rng.choice([['dump-sector', str(k), '0', '0'], ['cat', str(k)], ['show-titles', str(k)],
-                                      ['info', ':%d.#.*' % k], ['dump-sector', str(k), '0', '2']])
-                    must_fail(res, dfsbin, path, pre, cmd, 'mmb-unformatted-slot', files)
-                    res.sigs.append('mmb-unformatted|%d|%02x|%s' % (k, st, cmd[0]))
+                    rng.choice(range(5))
+                    for cmd in (['dump-sector', str(k), '0', '0'], ['cat', str(k)], ['show-titles', str(k)],
+                                ['info', ':%d.#.*' % k], ['dump-sector', str(k), '0', '2'], ['free', str(k)],
+                                ['type', '--binary', ':%d.$.A' % k]):
+                        must_fail(res, dfsbin, path, pre, cmd, 'mmb-unformatted-slot', files)
+                        res.sigs.append('mmb-unformatted|%d|%02x|%s' % (k, st, cmd[0]))
             # show-titles without arguments walks every drive: the title of every formatted slot must appear
             r_ = dfs(dfsbin, path, ['show-titles'], pre=pre, timeout=120)
             res.execs += 1
